@@ -254,4 +254,6 @@ Lemma erase_tick_election : forall e s x,
 Proof.
 intros e s x Hx Hm Hc.
 rewrite !tick_election_eq.
+change (self (nd (erase_S x s))) with (self (nd s)).
+destruct (self (nd s)) as [me|]; [|reflexivity].
 Abort.
